@@ -85,7 +85,7 @@ EXTRA = {
  "C11": "; TLAPS proofs (ChunkProofs.tla); size family; transient faults (a failed request is not a read, delivered groups are not requested again); index-opened and copied trees; pointwise selections; loads with the caller's process under an address-space limit (RLIMIT_AS 4 GiB, 99 MB groups)",
  "C16": "; 800 (6000) seconds x hundredths stamps; transient fault while VOL/LED/summary is fetched; each text field blank on its own; NUL padding",
  "C17": "; text encodings of dates in Calendar.tla with a must-fail greedy decoder; process time zones with and without DST; trees parsed / parsed while indexed / served from the index; two lines of one request across midnight / new year (Calendar!Later, Rollover); ambient decimal precision / NumPy error state of the caller",
- "C19": "; LockOf (copies share the lock), filesystem with one file object per path (memory:// semantics), two separately opened trees, same line as integer and as block, 12 MB loads with jitter; a request stalled for 12-65 s with the lock held; crowds of 4-64 free-running loaders (four-thread model MC_Loads_four); TLAPS proofs over Loads.tla for any number of threads (LoadsProofs.tla, LoadsLockProofs.tla: 564 obligations); line-grain schedules (a load parked before every source line inside the package after histories of 16-256 selections while a new selection is loaded): binds the model's thread-local-planning assumption",
+ "C19": "; LockOf (copies share the lock), filesystem with one file object per path (memory:// semantics), two separately opened trees, same line as integer and as block, 12 MB loads with jitter; a request stalled for 12-65 s with the lock held; crowds of 4-64 free-running loaders (four-thread model MC_Loads_four); TLAPS proofs over Loads.tla for any number of threads (LoadsProofs.tla, LoadsLockProofs.tla: 564 obligations); line-grain schedules (a load parked before every source line inside the package after histories of 16-256 selections while a new selection is loaded): binds LoadsPlan.tla (planning phase: thread-local or atomic memo safe, check-then-act on a full memo must fail)",
  "C20": "; complex fields with one half blank; whole state vectors blank jointly under every declared count",
  "C13": "; Hierarchy.tla (the group tree as a state machine): every TLC-exported history replayed on real Group objects and DataTrees; informational summary entries varied; interpreters / path spellings / calling contexts",
  "C03": "; lines of one request straddling midnight / new year (Calendar!Later); interpreters / path spellings / calling contexts",
